@@ -6,7 +6,9 @@ import common
 import net_run as R
 import net_sync as N
 
-TRUST = ["harness/net_sync.py drives the unmodified virtualNode/virtualQubit/simulatedQubit/stabilizerEngine objects of the scratch copy in one interpreter: "
+TRUST = ["harness/net_pb.py: a share of the programs runs over the real Perspective Broker (PBClientFactory/PBServerFactory joined by twisted.test.iosim "
+         "fake transports, links flushed to quiescence after each operation), so remote references and remote errors take the production path",
+         "harness/net_sync.py drives the unmodified virtualNode/virtualQubit/simulatedQubit/stabilizerEngine objects of the scratch copy in one interpreter: "
          "connect_to_node replaced by direct wiring, module-global reactor replaced by twisted task.Clock, StabilizerState's randint replaced by a scripted coin",
          "Twisted (inlineCallbacks, DeferredLock) and numpy are not modelled; all locks are free between operations (sequential semantics)",
          "oracles (state-vector ideal register, object-graph walk, capacity/atomicity rules) are plain Python, independent of the Coq model"]
@@ -18,7 +20,7 @@ def scenario(env, caps, sym):
     return R.replay(env, caps, sym)
 
 
-def run_property(ctx, pid, profiles, nprog, nops, scenarios=(), own_props=None, extra=None):
+def run_property(ctx, pid, profiles, nprog, nops, scenarios=(), own_props=None, extra=None, pb_every=5):
     own_props = own_props or [pid]
     ctx.trusted += TRUST
     common.check_properties_file(ctx)
@@ -26,12 +28,20 @@ def run_property(ctx, pid, profiles, nprog, nops, scenarios=(), own_props=None, 
     rng = ctx.rng
     runners = []
     for i in range(nprog):
-        runners.append(R.random_program(env, rng, nops, profiles[i % len(profiles)]))
+        # every pb_every-th program runs over the real Perspective Broker (in-memory transports) instead of direct calls
+        use_pb = pb_every and (i % pb_every == pb_every - 1)
+        runners.append(R.random_program(env, rng, nops, profiles[i % len(profiles)], pb=use_pb))
+        if use_pb:
+            ctx.count("programs_over_real_PB")
     fixed = []
     for (name, caps, ops) in scenarios:
         r = scenario(env, caps, ops)
         r.scenario = name
         fixed.append(r)
+        r = R.replay(env, caps, ops, pb=True)
+        r.scenario = name + "@pb"
+        fixed.append(r)
+        ctx.count("programs_over_real_PB")
     allr = fixed + runners
     # ---- coverage -----------------------------------------------------------------------------------------
     for r in allr:
@@ -61,8 +71,8 @@ def run_property(ctx, pid, profiles, nprog, nops, scenarios=(), own_props=None, 
 
         def pred(rr, want=want):
             return any(q["prop"] in own_props and q["what"].startswith(want[:25]) for q in rr.problems)
-        small = R.shrink(env, r.caps, sym, pred)
-        rr = R.replay(env, r.caps, small)
+        small = R.shrink(env, r.caps, sym, pred, pb=r.pb)
+        rr = R.replay(env, r.caps, small, pb=r.pb)
         pp = [q for q in rr.problems if q["prop"] in own_props]
         what = pp[0]["what"] if pp else p["what"]
         key = "%s:%s" % (pid, what.split(":")[0][:60])
@@ -71,7 +81,7 @@ def run_property(ctx, pid, profiles, nprog, nops, scenarios=(), own_props=None, 
         seen.add(key)
         ctx.obligation("oracle %s" % key, False, what)
         if ctx.report(key, what, {"caps": r.caps, "ops": [list(o) for o in small],
-                                  "note": "handles are named by the index of the creating operation",
+                                  "note": "handles are named by the index of the creating operation", "over_real_PB": r.pb,
                                   "impl_outs": [s[1] for s in rr.steps]}, found_input=True):
             found = True
         else:
